@@ -117,11 +117,48 @@ fn boundary_jobs(seed: u64, per_instr: u64) -> Vec<StateSpec> {
     out
 }
 
+/// Jobs that compare or print deeply nested code (structural comparison, containment, printing
+/// recurse on the items): depths 50 .. 400 and back to 200, so that a job's result would show if
+/// an earlier, deeper job left something behind on its thread.
+fn nesting_jobs() -> Vec<StateSpec> {
+    let chain = |d: usize, inner: i32| -> ItemSpec {
+        let mut t = ItemSpec::List(vec![ItemSpec::Int(inner)]);
+        for k in 0..d {
+            t = if k % 4 == 1 { ItemSpec::List(vec![ItemSpec::Int(k as i32), t]) } else { ItemSpec::List(vec![t]) };
+        }
+        t
+    };
+    let mut out = vec![];
+    for d in [50usize, 200, 300, 257, 400, 200, 100, 255] {
+        for prog in ["CODE.CONTAINS", "CODE.MEMBER", "CODE.=", "CODE.POSITION", "CODE.DISCREPANCY", "CODE.SUBST", "CODE.CONTAINER"] {
+            for same in [true, false] {
+                let mut s = StateSpec::default();
+                // run() copies the program onto CODE first, so the operands are quoted by the program
+                let q = ItemSpec::instr("CODE.QUOTE");
+                s.exec = vec![ItemSpec::List(vec![
+                    q.clone(),
+                    ItemSpec::List(vec![chain(d, 5), ItemSpec::Int(1)]),
+                    q.clone(),
+                    chain(d, if same { 5 } else { 6 }),
+                    q,
+                    chain(d, 5),
+                    ItemSpec::instr(prog),
+                ])];
+                s.config.eval_push_limit = 30;
+                s.config.eval_time_limit = JOB_TIME_LIMIT_MS;
+                out.push(s);
+            }
+        }
+    }
+    out
+}
+
 /// deterministic job list; jobs whose monitored dry run leaves the resource envelope are dropped
 fn jobs(seed: u64, n: u64) -> Vec<StateSpec> {
     let mut all = program_jobs(seed, n);
     all.extend(sweep_jobs(seed, (n / 40).max(8)));
     all.extend(boundary_jobs(seed, (n / 80).max(4)));
+    all.extend(nesting_jobs());
     // dry-run filter for the sweep jobs as well (EXEC items may be code)
     all
 }
